@@ -18,6 +18,7 @@ import (
 	"github.com/git-lfs/git-lfs/v3/errors"
 	"github.com/git-lfs/git-lfs/v3/filepathfilter"
 	"github.com/git-lfs/git-lfs/v3/tr"
+	"github.com/git-lfs/git-lfs/v3/verifhook"
 )
 
 // FileOrDirExists determines if a file/dir exists, returns IsDir() results too.
@@ -80,6 +81,7 @@ func RenameFileCopyPermissions(srcfile, destfile string) error {
 		}
 	}
 
+	verifhook.Crash("tools.renameperm.beforeRename")
 	if err := RobustRename(srcfile, destfile); err != nil {
 		return errors.New(tr.Tr.Get("cannot replace %q with %q: %v", destfile, srcfile, err))
 	}
@@ -458,6 +460,7 @@ func TempFile(dir, pattern string, cfg repositoryPermissionFetcher) (*os.File, e
 		return nil, err
 	}
 
+	verifhook.Crash("tools.tempfile.created")
 	perms := cfg.RepositoryPermissions(false)
 	err = os.Chmod(tmp.Name(), perms)
 	if err != nil {
